@@ -250,8 +250,10 @@ func ruleR3(c *Ctx) {
 				}
 			case *ssa.Parameter:
 				if isProtoreflectIface(x.Type()) {
-					if !r3Helpers[fnName(fn)] {
-						return "handle is a parameter of a function that is not a listed helper", false
+					// any unexported function taking a raw storage handle is a private helper:
+					// its stores are justified at its call sites (checked recursively below)
+					if fn.Object() != nil && fn.Object().Exported() {
+						return "handle is a parameter of an exported function: its callers cannot be enumerated", false
 					}
 					if depth > 3 {
 						return "helper call chain too deep", false
